@@ -46,7 +46,7 @@ type workload struct {
 	H        []int `json:"handlers"`
 	Cancel   bool  `json:"precancelled"`
 	Persist  int   `json:"persist"`
-	Observer int   `json:"observer"` // 0 recording, 1 OpenTelemetry
+	Observer int   `json:"observer"` // 0 recording, 1 OpenTelemetry (all spans sampled), 2 OpenTelemetry with a sampler that drops every trace, 3 OpenTelemetry with a meter provider only (no-op tracer)
 }
 
 func (w workload) String() string {
@@ -54,10 +54,7 @@ func (w workload) String() string {
 	for _, x := range w.H {
 		hs = append(hs, hkinds[x])
 	}
-	obs := "recording"
-	if w.Observer == 1 {
-		obs = "otel"
-	}
+	obs := []string{"recording", "otel", "otel-never-sample", "otel-metrics-only"}[w.Observer]
 	return fmt.Sprintf("[%s] precancelled=%v persist=%s observer=%s", strings.Join(hs, " "), w.Cancel, pmodes[w.Persist], obs)
 }
 
@@ -185,10 +182,18 @@ func (in *inst) Body() {
 		opts = append(opts, eventbus.WithObservability(recObs{&in.rec, &in.n}))
 	} else {
 		in.sr = tracetest.NewSpanRecorder()
-		in.tp = sdktrace.NewTracerProvider(sdktrace.WithSpanProcessor(in.sr))
+		tpOpts := []sdktrace.TracerProviderOption{sdktrace.WithSpanProcessor(in.sr)}
+		if w.Observer == 2 {
+			tpOpts = append(tpOpts, sdktrace.WithSampler(sdktrace.NeverSample()))
+		}
+		in.tp = sdktrace.NewTracerProvider(tpOpts...)
 		in.reader = sdkmetric.NewManualReader()
 		mp := sdkmetric.NewMeterProvider(sdkmetric.WithReader(in.reader))
-		o, err := ebuotel.New(ebuotel.WithTracerProvider(in.tp), ebuotel.WithMeterProvider(mp))
+		oo := []ebuotel.Option{ebuotel.WithMeterProvider(mp)}
+		if w.Observer != 3 {
+			oo = append(oo, ebuotel.WithTracerProvider(in.tp))
+		}
+		o, err := ebuotel.New(oo...)
 		if err != nil {
 			panic(err)
 		}
@@ -237,10 +242,7 @@ func (in *inst) Check(res *vrt.Result) []vrt.Violation {
 	w := in.w
 	var vs []vrt.Violation
 	bad := func(kind, sig string) {
-		obs := "recording observer"
-		if w.Observer == 1 {
-			obs = "otel"
-		}
+		obs := []string{"recording observer", "otel", "otel (never sampled)", "otel (metrics only)"}[w.Observer]
 		vs = append(vs, vrt.Violation{Kind: kind, Sig: obs + ": " + sig, Detail: "workload " + w.String() + "\nlog: " + in.rec.String()})
 	}
 	if res.Status != vrt.StatusOK {
@@ -335,7 +337,12 @@ func (in *inst) Check(res *vrt.Result) []vrt.Violation {
 	if len(st) != len(en) {
 		bad("span-balance", fmt.Sprintf("%d spans started, %d ended", len(st), len(en)))
 	}
-	if len(st) != publishes+runs+attempts {
+	if w.Observer >= 2 {
+		// no span is recorded in these configurations; the counters must still be true
+		if len(st) != 0 {
+			bad("span-count", "spans recorded although every trace is sampled out / no tracer is configured")
+		}
+	} else if len(st) != publishes+runs+attempts {
 		bad("span-count", fmt.Sprintf("%d spans for %d publishes, %d handler runs, %d append attempts", len(st), publishes, runs, attempts))
 	}
 	pubSpans := map[trace.SpanID]bool{}
@@ -393,7 +400,10 @@ func workloads(thorough bool) []workload {
 	rec = func(cur []int) {
 		for _, cn := range []bool{false, true} {
 			for p := range pmodes {
-				for obs := 0; obs < 2; obs++ {
+				for obs := 0; obs < 4; obs++ {
+					if obs >= 2 && len(cur) > 1 {
+						continue // counters-only configurations: handler lists up to length 1
+					}
 					l = append(l, workload{H: append([]int{}, cur...), Cancel: cn, Persist: p, Observer: obs})
 				}
 			}
